@@ -188,6 +188,9 @@ class C09(core.Prop):
         'dumps(indent=4) (one structural newline per line, no trailing blanks, strings quoted) are assumed and exercised',
     ]
 
+    def revive(self, case):
+        return cx.revive(case)
+
     def corpus(self):
         return [
             {'set': {'fields': {'d': {'type': 'date', 'min': None, 'max': '2020-01-02'}}}},
